@@ -258,6 +258,10 @@ func (c *Chain) initGenesis(ctx sdk.Context) {
 			bg.Supply = sdk.NewCoins(sdk.NewCoin(cfg.MintDenom, sdkmath.NewIntFromBigInt(total)))
 		}
 	}
+	// the module accounts exist from genesis (as on the production chain), so that funds sent to their
+	// addresses do not end up in plain base accounts
+	c.Auth.GetModuleAccount(ctx, cctptypes.ModuleName)
+	c.Auth.GetModuleAccount(ctx, ftftypes.ModuleName)
 	c.Bank.InitGenesis(ctx, bg)
 
 	// fiat-token-factory genesis by hand (its root package pulls ibc-go through ante.go)
